@@ -12,7 +12,8 @@
       packer Flow.Adopt in full (adopt_full) ->  R class | views | tadd tsub   or   A <as D> | used
    DS T S benef deleg reward perc hasDelegations  ->  benefShare delegShare issued      (energy.DistributeRewards)
    BF galactica pnum gasLimit gasUsed parentBaseFee  ->  none | fee x | panic
-   numbers are hex; the clause oracle given to the model is the lookup table of the observed results, effects = apply_ops. *)
+   numbers are hex; the clause oracle given to the model is the lookup table of the observed results (gas left, refund counter, error,
+   the ledger primitives visible in the receipt). *)
 open Model
 open Wire
 
@@ -72,12 +73,11 @@ let handle_tx secs =
     let table = Array.of_list (List.map (fun g -> match g with
         | l :: r :: er :: ops -> (z l, z r, bool_of_tok er, parse_ops ops)
         | _ -> failwith "bad clause observation") (List.filter (fun g -> g <> []) (split_on ";" obs))) in
-    let oracle i _gas (st : credit_log state) =
+    let oracle _env _tx i _gas (st : credit_log state) =
       let k = int_of_nat i in
       if k >= Array.length table then failwith "model executes a clause the implementation did not" else
       let (l, r, er, ops) = table.(k) in
-      { cr_left = l; cr_refund = r; cr_err = er;
-        cr_state = (apply_ops e.e_time e.e_stop (fst st) ops, snd st); cr_out = i } in
+      { cr_left = l; cr_refund = r; cr_err = er; cr_ops = ops; cr_world = snd st; cr_out = i } in
     let tail l = zs l.l_add ^ " " ^ zs l.l_sub in
     let show_done tag st rc =
        String.concat " " [ tag; zs rc.r_gas_used; zs rc.r_paid; zs rc.r_reward; tok_of_bool rc.r_reverted;
